@@ -13,7 +13,13 @@
                 closes the connection without finishing the response (a ResponseRecorder sees the
                 panic itself): the request ends here, nothing more is written.  Deferred calls
                 (ReleaseBuffer) still run while the stack unwinds.
-   A component writes chunks 1..k through its io.Writer and then returns nil or an error.
+   A component writes chunks 1..k through its io.Writer and then returns nil or an error.  The error has a
+   CLASS (ecls): "plain" an ordinary error; "canceled" / "deadline" an error that WRAPS context.Canceled /
+   context.DeadlineExceeded although the request context is alive (a cancelled sub-operation of the
+   component, an upstream call that timed out); "reqcancelled" the request context itself is cancelled and
+   the component returns ctx.Err().  handler.go does not look at the error: every class takes the error
+   path, the configured error handler is consulted (ghost rw.ehran) and the property -- error => exactly
+   the error response, no document bytes -- is decided per class.
    ServeHTTPBuffered renders into a pooled bytes.Buffer (GetBuffer / deferred ReleaseBuffer) and
    touches the ResponseWriter only afterwards; ServeHTTPStreamed hands the ResponseWriter to the
    component.  A sequence of MaxReq requests runs over one buffer pool.
@@ -25,7 +31,7 @@ EXTENDS Integers, Sequences, FiniteSets, TLC, Json
 CONSTANTS MaxK,        \* components write 0..MaxK chunks
           MaxReq,      \* requests per sequence (the pool is the only state carried over)
           Variant,     \* "asCoded" | "noReset" | "headersFirst" | "bufferInErrorPath" | "statusInErrorPath"
-                       \* | "nilFallsThrough"
+                       \* | "nilFallsThrough" | "silentOnCanceled" (errors.Is(err, context.Canceled) => plain return)
           EmitEdges
 
 VARIABLES req,    \* configuration + component of the request being served
@@ -45,12 +51,17 @@ CTypes       == {"default", "custom"}                           \* text/html; ch
 EHKinds      == {"unset", "statusbody", "bodyonly", "nothing", "headers", "nilhandler"}
 NoHdr        == "absent"
 
-Configs == [status : Statuses, ctype : CTypes, eh : EHKinds, stream : BOOLEAN, k : 0..MaxK, fail : BOOLEAN]
+ErrClasses   == {"plain", "canceled", "deadline", "reqcancelled"}
+Configs == {c \in [status : Statuses, ctype : CTypes, eh : EHKinds, stream : BOOLEAN, k : 0..MaxK, fail : BOOLEAN,
+                   ecls : {"none"} \cup ErrClasses] : c.fail = (c.ecls # "none")}
+\* errors.Is(err, context.Canceled) holds for the errors of these classes
+IsCanceled(c) == c.ecls \in {"canceled", "reqcancelled"}
 
 -----------------------------------------------------------------------------
 (* net/http ResponseWriter *)
 FreshRW == [hdr |-> [h \in {"Content-Type", "X-Err"} |-> NoHdr], wrote |-> FALSE, status |-> 0,
-            sent |-> [h \in {"Content-Type", "X-Err"} |-> NoHdr], body |-> <<>>, aborted |-> FALSE]
+            sent |-> [h \in {"Content-Type", "X-Err"} |-> NoHdr], body |-> <<>>, aborted |-> FALSE,
+            ehran |-> FALSE]     \* ghost: the configured error handler was consulted with the render error
 
 HSet(w, h, v) == [w EXCEPT !.hdr[h] = v]
 \* WriteHeader: only the first one counts; the header map is frozen into the response at that point.
@@ -69,10 +80,11 @@ Abort(w) == [w EXCEPT !.aborted = TRUE]
 \* a handler that panicked gets no implied header: only what had been committed (status 0 / absent = nothing)
 Final(w) == LET w1 == IF w.aborted THEN w ELSE WriteHeader(w, 200) IN
             [status |-> w1.status, ct |-> w1.sent["Content-Type"], xerr |-> w1.sent["X-Err"], body |-> w1.body,
-             aborted |-> w1.aborted]
+             aborted |-> w1.aborted, eh |-> w1.ehran]
 
 (* The error handlers of the configuration space (what the harness installs). *)
-ServeEH(kind, w) ==
+ServeEH(kind, w0) ==
+    LET w == [w0 EXCEPT !.ehran = TRUE] IN
     CASE kind = "statusbody" -> Write(WriteHeader(w, 400), << <<"H">> >>)
       [] kind = "bodyonly"   -> Write(w, << <<"H">> >>)
       [] kind = "nothing"    -> w
@@ -84,7 +96,7 @@ Doc(k) == [j \in 1..k |-> <<"c", j>>]
 -----------------------------------------------------------------------------
 (* Reference responses (DESIGN.md appendix). *)
 SuccessResponse(c) == [status |-> IF c.status = 0 THEN 200 ELSE c.status, ct |-> c.ctype, xerr |-> NoHdr, body |-> Doc(c.k),
-                       aborted |-> FALSE]
+                       aborted |-> FALSE, eh |-> FALSE]
 \* with an error handler: Content-Type preset to the configured value, then whatever the handler writes;
 \* a nil error handler result: the request is aborted with nothing committed (status 0, no header, no body)
 ErrorResponse(c) == IF c.eh = "unset" THEN Final(HttpError(FreshRW))
@@ -127,7 +139,8 @@ BRenderChunk == /\ pc = "b_render" /\ i < req.k
 
 BRenderReturn == /\ pc = "b_render" /\ i = req.k
                  /\ rerr' = req.fail
-                 /\ pc' = IF req.fail THEN (IF req.eh = "unset" THEN "b_err_default" ELSE "b_err_setct")
+                 /\ pc' = IF req.fail THEN (IF Variant = "silentOnCanceled" /\ IsCanceled(req) THEN "b_release"
+                                            ELSE IF req.eh = "unset" THEN "b_err_default" ELSE "b_err_setct")
                           ELSE (IF Variant = "headersFirst" THEN "b_ok_write" ELSE "b_ok_setct")
                  /\ UNCHANGED <<req, rw, buf, i, pool, n>>
                  /\ Step("RenderReturn")
@@ -262,7 +275,13 @@ TypeOK == /\ req \in Configs
 AllOrNothing ==
     (pc \in {"done", "finished"} /\ ~req.stream) =>
         /\ ~req.fail => Final(rw) = SuccessResponse(req)
-        /\ req.fail  => Final(rw) = ErrorResponse(req)
+        /\ req.fail  => Final(rw) = ErrorResponse(req)      \* whatever the class of the error
+
+\* a failed render is reported: the configured error handler is consulted, or the default 500 goes out -- never a
+\* success status line -- for every error class, in particular errors that merely wrap context.Canceled
+FailureIsReported ==
+    (pc \in {"done", "finished"} /\ ~req.stream /\ req.fail) =>
+        IF req.eh = "unset" THEN Final(rw).status = 500 ELSE rw.ehran
 
 \* the same, said directly: after a failed render no chunk of the document reaches the client (hence no success
 \* status with document bytes), and a request aborted by a panic has committed no status line at all
@@ -295,7 +314,7 @@ StreamedAsDocumented ==
                 e == ErrorResponse(req)
                 f == Final(rw)
             IN  /\ f.body = Doc(req.k) \o e.body
-                /\ f.aborted = e.aborted
+                /\ f.aborted = e.aborted /\ f.eh = e.eh
                 /\ IF headSent THEN f.status = SuccessResponse(req).status /\ f.ct = req.ctype /\ f.xerr = NoHdr
                    ELSE f.status = e.status /\ f.ct = e.ct /\ f.xerr = e.xerr
 
